@@ -55,6 +55,7 @@ def scenario(draw):
     for _ in range(draw(st.integers(0, 4))):
         faults[str(draw(st.integers(0, 10)))] = draw(st.sampled_from(['garbage', 'garbage-joined', 'late', 'silent', 'close-before', 'close-inside', 'close-after', 'chunk1', 'chunk3']))
     return {'kind': 'scenario', 'io': kind, 'callers': callers, 'faults': faults, 'refuse': draw(st.sampled_from([0, 0, 1, 3])),
+            'wait_before': draw(st.sampled_from([WAIT_BEFORE, WAIT_BEFORE, 0])),     # (0 is the default of the communicators)
             'banner': draw(st.booleans()), 'eol': draw(st.sampled_from(['\n', '\n', '\r\n'])), 'ident': draw(st.integers(0, 2)) == 0, 'connect_delay': draw(st.sampled_from([0, 0, 0.05])), 'poller': draw(st.sampled_from(['model', 'real'])), 'schedule': draw(st.lists(st.integers(0, 4), min_size=10, max_size=200))}
 
 
@@ -107,6 +108,10 @@ class Device:
             return
         fault = w.case['faults'].get(str(idx))
         reply = self.reply_for(cmd)
+        if fault == 'late' and not w.case.get('wait_before', WAIT_BEFORE):
+            # without a pause before sending, a reply coming in late can not be told from the reply to the next command
+            # (it may arrive after that was sent): no statement about it - the device stays silent instead
+            fault = 'silent'
         if fault == 'silent':
             return
         if fault == 'close-before':
@@ -142,6 +147,8 @@ class Device:
     def close(self):
         self.closed = True
         self.world.disconnects.append(dsched.v_time())
+        # (how many connection attempts were made before: with no pauses, everything may happen at the same virtual time)
+        self.world.disconnect_marks.append(len(self.world.net.attempts) if getattr(self.world, 'net', None) else 0)
         self.world.refuse_left = self.world.case.get('refuse', 0)
         self.sock.peer_close()
 
@@ -154,6 +161,7 @@ class World:
         self.idents = []
         self.bytelog = []
         self.disconnects = []
+        self.disconnect_marks = []
         self.refuse_left = 0
         self.accepted = []
         self.noreply = set()
@@ -188,6 +196,7 @@ def run(case, preempt=None):
     world = World(case)
     net = fakenet.FakeNet(world.factory)
     net.connect_delay = case.get('connect_delay', 0)
+    world.net = net
     s = dsched.Sched(case.get("schedule", ()), preempt=preempt, horizon=600, step_limit=80000)
     out = {'sched': s, 'world': world, 'net': net, 'results': [], 'error': None, 'callbacks': {'a': 0, 'b': 0}, 'state': []}
 
@@ -206,7 +215,7 @@ def run(case, preempt=None):
                 return self
         cls = fio.StringIO if case['io'] == 'string' else fio.BytesIO
         cfg_io = {'uri': 'tcp://device:4000', 'description': 'communicator', 'timeout': {'value': TIMEOUT},
-                  'wait_before': {'value': WAIT_BEFORE}, 'pollinterval': {'value': INTERVAL}}
+                  'wait_before': {'value': case.get('wait_before', WAIT_BEFORE)}, 'pollinterval': {'value': INTERVAL}}
         if case['io'] == 'string' and case.get('eol', '\n') != '\n':
             cfg_io['end_of_line'] = case['eol']
         if case['io'] == 'string' and case.get('ident'):
@@ -414,15 +423,15 @@ def check(ctx, case):
     # poll of the parameter is_connected (every slowinterval): its second attempt within one interval is the known finding
     # C16:...:poll-thread-main-and-parameter-poll; it is told apart by judging the attempts without these duplicates first
     dedup, last_poll = [], None
-    for t, p in zip(attempts, by_poller):
+    for n_, (t, p) in enumerate(zip(attempts, by_poller)):
         if p and case.get('poller') == 'real':
             if last_poll is not None and t - last_poll < INTERVAL * 0.99:
                 continue
             last_poll = t
-        dedup.append(t)
-    for name, lst in (('', dedup), (':poll-thread-main-and-parameter-poll', attempts)):
-        for td in world.disconnects:
-            after = [t for t in lst if t >= td]
+        dedup.append((n_, t))
+    for name, lst in (('', dedup), (':poll-thread-main-and-parameter-poll', list(enumerate(attempts)))):
+        for td, mark in zip(world.disconnects, world.disconnect_marks):
+            after = [t for n_, t in lst if t >= td and n_ >= mark]
             # two sources try to reconnect: the poll of is_connected (once per interval) and the callers (rate limited to once per
             # interval): any window shorter than the interval may hold at most one attempt of each
             for i, a in enumerate(after):
